@@ -182,10 +182,20 @@ impl Cache {
         layout_output: LayoutOutput,
     ) {
         #[cfg(taffy_verif)]
+        if crate::verif_hooks::quiet_hit_mode() && run_mode != RunMode::PerformHiddenLayout {
+            self.final_layout_entry = None;
+            self.verif_exact.retain(|(k, _)| k.run_mode != RunMode::PerformLayout);
+        }
+        #[cfg(taffy_verif)]
         if crate::verif_hooks::exact_key_mode() {
             if let Some(cur) = crate::verif_hooks::current_input() {
                 if run_mode != RunMode::PerformHiddenLayout {
                     self.is_empty = false;
+                    // like the real cache, keep ONE PerformLayout entry: the stored layouts below the node belong to
+                    // the most recent PerformLayout evaluation only
+                    if run_mode == RunMode::PerformLayout {
+                        self.verif_exact.retain(|(k, _)| k.run_mode != RunMode::PerformLayout);
+                    }
                     self.verif_exact.push((cur, layout_output));
                 }
                 return;
